@@ -68,6 +68,7 @@
 From Coq Require Import List QArith.
 From PV Require Import Lib.Py Model.Graph Model.Validate.
 From PV Require Import Proofs.C01Base Proofs.C01 Proofs.C12Base Proofs.C12.
+From PV Require Import Proofs.C01Weak Proofs.C12Weak.
 From PV Require Import Model.Fail Model.ValidateFail.
 From PV Require Import Proofs.C12Chain Proofs.C12FailBase Proofs.C12Fail.
 Import ListNotations.
@@ -293,3 +294,72 @@ Theorem C12_failed_buckets : forall fpre fnimp ktext l k x,
      In x l /\ not_implemented fpre fnimp (snd x) = false /\ ktext (key_of fpre (snd x)) = k).
 Proof. exact failed_buckets_spec. Qed.
 Print Assumptions C12_failed_buckets.
+
+(* ---- the five theorems about Model/Validate.v under the WEAK non-blank
+   condition of Props/C01.v (sem_nonblank_weak), i.e. for workbooks with
+   whole-column references (C01_alias_weak; such a workbook does not meet
+   sem_nonblank: C01_alias_not_strong).  Proofs/C12Weak.v: the loop reaches sem
+   through build and evaluate only, which cannot tell sem from guard W sem in
+   any state; the statements are those above with the weak condition. *)
+Theorem C12_sound_weak_partial : forall W sem ftext tol,
+  wf W -> sem_nonblank_weak W sem -> stored_consistent W sem -> tol_pos tol ->
+  (forall n, n < wb_n W -> is_fcell W n = true -> is_scalar (spec W sem (wb_inp0 W) n) = true) ->
+  (forall n vals, n < wb_n W -> is_fcell W n = true -> py_eq (sem n vals) (VStr (ftext n)) = false) ->
+  forall outs, (forall o, In o outs -> o < wb_n W) ->
+    vs_report (validate W sem ftext tol outs) = [].
+Proof. exact sound_weak. Qed.
+Print Assumptions C12_sound_weak_partial.
+
+Theorem C12_complete_weak_partial : forall W sem ftext tol p v',
+  wf W -> sem_nonblank_weak W sem -> stored_consistent W sem ->
+  p < wb_n W -> is_fcell W p = true -> tol_pos tol ->
+  (forall n, n < wb_n W -> is_fcell W n = true -> is_scalar (spec W sem (wb_inp0 W) n) = true) ->
+  (forall n vals, n < wb_n W -> is_fcell W n = true -> py_eq (sem n vals) (VStr (ftext n)) = false) ->
+  v' <> VNone -> py_eq v' (VStr (ftext p)) = false ->
+  close_enough tol (spec W sem (wb_inp0 W) p) v' = false ->
+  forall outs, (forall o, In o outs -> o < wb_n W) ->
+    (exists o, In o outs /\ (p = o \/ anc W p o)) ->
+    let r := vs_report (validate (perturb W p v') sem ftext tol outs) in
+    rep_get r p = Some (v', spec W sem (wb_inp0 W) p) /\
+    forall n, rep_get r n <> None -> n = p \/ anc W p n.
+Proof. exact complete_weak. Qed.
+Print Assumptions C12_complete_weak_partial.
+
+Theorem C12_no_silent_skip_weak_partial : forall W sem ftext tol outs,
+  wf W -> sem_nonblank_weak W sem -> stored_full W ->
+  (forall n, n < wb_n W -> is_fcell W n = true -> py_eq (wb_stored W n) (VStr (ftext n)) = false) ->
+  (forall n vals, n < wb_n W -> is_fcell W n = true -> py_eq (sem n vals) (VStr (ftext n)) = false) ->
+  (forall n, n < wb_n W -> is_fcell W n = true -> is_scalar (spec W sem (wb_inp0 W) n) = true) ->
+  tol_pos tol ->
+  (forall o, In o outs -> o < wb_n W) ->
+    vs_todo (validate W sem ftext tol outs) = [] /\
+    forall o n, In o outs -> n = o \/ anc W n o ->
+      mem n (vs_verified (validate W sem ftext tol outs)) = true.
+Proof. exact processed_all_weak. Qed.
+Print Assumptions C12_no_silent_skip_weak_partial.
+
+Theorem C12_clean_not_reported_weak_partial : forall W sem ftext tol outs,
+  wf W -> sem_nonblank_weak W sem -> stored_full W ->
+  (forall n, n < wb_n W -> is_fcell W n = true -> py_eq (wb_stored W n) (VStr (ftext n)) = false) ->
+  (forall n vals, n < wb_n W -> is_fcell W n = true -> py_eq (sem n vals) (VStr (ftext n)) = false) ->
+  (forall n, n < wb_n W -> is_fcell W n = true -> is_scalar (spec W sem (wb_inp0 W) n) = true) ->
+  tol_pos tol ->
+  (forall o, In o outs -> o < wb_n W) ->
+  forall n, clean W sem n -> rep_get (vs_report (validate W sem ftext tol outs)) n = None.
+Proof. exact clean_not_reported_weak. Qed.
+Print Assumptions C12_clean_not_reported_weak_partial.
+
+Theorem C12_bad_reported_weak_partial : forall W sem ftext tol outs,
+  wf W -> sem_nonblank_weak W sem -> stored_full W ->
+  (forall n, n < wb_n W -> is_fcell W n = true -> py_eq (wb_stored W n) (VStr (ftext n)) = false) ->
+  (forall n vals, n < wb_n W -> is_fcell W n = true -> py_eq (sem n vals) (VStr (ftext n)) = false) ->
+  (forall n, n < wb_n W -> is_fcell W n = true -> is_scalar (spec W sem (wb_inp0 W) n) = true) ->
+  tol_pos tol ->
+  (forall o, In o outs -> o < wb_n W) ->
+  forall o n, In o outs -> n = o \/ anc W n o -> n < wb_n W -> is_fcell W n = true ->
+    semiclean W sem n ->
+    close_enough tol (spec W sem (wb_inp0 W) n) (wb_stored W n) = false ->
+    rep_get (vs_report (validate W sem ftext tol outs)) n
+    = Some (wb_stored W n, spec W sem (wb_inp0 W) n).
+Proof. exact bad_reported_weak. Qed.
+Print Assumptions C12_bad_reported_weak_partial.
